@@ -159,6 +159,17 @@ def finish(pid, tier, seed, prof, recs, libs, timeout, known, t0, a, extra_cov=N
                                                          str(v2.get("detail"))[:1500].replace("\n", "\n  ")))
             if exit_code == 0:
                 exit_code = 1
+    ginfo = {}
+    if hasattr(prof, "global_check") and not failing:
+        gv, ginfo = prof.global_check(total)
+        for v in gv:
+            n_viol += 1
+            gcase = {"global": True, "property": pid, "tier": tier, "seed": seed, "indices": [recs[0]["index"], recs[-1]["index"] + 1],
+                     "index": -1, "lifetimes": [], "scripts": []}
+            path = runner.write_replay(pid, seed, gcase, v, None)
+            print("VIOLATION property=%s replay=%s" % (pid, path))
+            print("  oracle=%s (pooled over cases %d..%d)\n  %s" % (v["oracle"], recs[0]["index"], recs[-1]["index"], v["detail"]))
+            exit_code = 1
     for sigk, (k, cnt) in known_lines.items():
         print("KNOWN-FINDING: property=%s %s -- %s (seen in %d cases)" % (pid, k["signature"], k["what"], cnt))
     wall = time.time() - t0
@@ -175,6 +186,8 @@ def finish(pid, tier, seed, prof, recs, libs, timeout, known, t0, a, extra_cov=N
                                "native engine built from /repo working tree"],
            "stubbed_components": ["wall clock inside engineexport_run (virtual, hook H1)", "entropy behind random.randint (seeded)"],
            "known_findings_seen": {k: c for k, (_, c) in known_lines.items()}}
+    if ginfo:
+        cov["pooled_statistics"] = ginfo
     if extra_cov:
         cov.update(extra_cov)
     if hasattr(prof, "extra_coverage"):
